@@ -174,3 +174,42 @@ def coverage_to_coq(rows):
     from harness.lib import S, L, P
     lines = ["  " + P(S(c), L([S(a) for a in ch]), L([S(a) for a in vis])) for c, ch, vis in rows]
     return "Definition nodes_coverage : list (string * list string * list string) := [\n" + ";\n".join(lines) + "\n].\n"
+
+
+def extract_is_aggregate(repo):
+    """per Node subclass of pypika/terms.py: how is_aggregate is decided -- the class attribute found first along the MRO
+    ('None' = abstains in resolve_is_aggregate, 'False', 'True') or 'property' (computed from the operands)"""
+    classes = _classes(repo)
+
+    def own(c):
+        for st in classes[c].body:
+            tgt = None
+            if isinstance(st, ast.Assign) and any(isinstance(t, ast.Name) and t.id == "is_aggregate" for t in st.targets):
+                tgt = st.value
+            elif isinstance(st, ast.AnnAssign) and isinstance(st.target, ast.Name) and st.target.id == "is_aggregate":
+                tgt = st.value
+            elif isinstance(st, ast.FunctionDef) and st.name == "is_aggregate":
+                return "property"
+            if tgt is not None:
+                if isinstance(tgt, ast.Constant) and tgt.value in (None, True, False):
+                    return repr(tgt.value)
+                raise ValueError("%s.is_aggregate is assigned a non-literal" % c)
+        return None
+    rows = []
+    for c in classes:
+        if "Node" not in _mro(classes, c):
+            continue
+        for k in _mro(classes, c):
+            v = own(k)
+            if v is not None:
+                rows.append((c, v))
+                break
+        else:
+            raise ValueError("no is_aggregate for %s" % c)
+    return rows
+
+
+def is_aggregate_to_coq(rows):
+    from harness.lib import S, P
+    return ("Definition is_aggregate_table : list (string * string) := [\n"
+            + ";\n".join("  " + P(S(c), S(v)) for c, v in rows) + "\n].\n")
